@@ -146,4 +146,70 @@ func (o *Once) Do(f func()) {
 func resetSyncx() {
 	maps = map[uintptr]*mapState{}
 	onces = map[uintptr]*onceState{}
+	pools = map[uintptr]*poolState{}
+}
+
+// Pool replaces sync.Pool. It is deliberately adversarial but legal: Get returns the most recently
+// Put object whenever there is one (the real pool may do exactly that), and Put is followed by a
+// scheduling point, so "the object was handed back while somebody still uses it" becomes visible
+// as soon as another thread can pick it up.
+type Pool struct {
+	New func() any
+	_   byte
+}
+
+type poolState struct {
+	items []any
+	vc    VC
+}
+
+var pools = map[uintptr]*poolState{}
+
+func poolOf(p *Pool) *poolState {
+	k := reflect.ValueOf(p).Pointer()
+	s := pools[k]
+	if s == nil {
+		s = &poolState{}
+		pools[k] = s
+	}
+	return s
+}
+
+func (p *Pool) Get() any {
+	e := cur
+	if e.aborted.Load() {
+		if p.New != nil {
+			return p.New()
+		}
+		return nil
+	}
+	s := poolOf(p)
+	e.point("pool.Get", nil, -1)
+	me := e.cur
+	if n := len(s.items); n > 0 {
+		x := s.items[n-1]
+		s.items = s.items[:n-1]
+		me.vc = me.vc.join(s.vc)
+		e.note(me, "pool.Get-reused")
+		return x
+	}
+	e.note(me, "pool.Get-new")
+	if p.New != nil {
+		return p.New()
+	}
+	return nil
+}
+
+func (p *Pool) Put(x any) {
+	e := cur
+	if e.aborted.Load() {
+		return
+	}
+	s := poolOf(p)
+	me := e.cur
+	s.items = append(s.items, x)
+	s.vc = s.vc.join(me.vc)
+	me.vc[me.id]++
+	e.note(me, "pool.Put")
+	e.point("pool.Put", nil, -1) // the object is already available to other threads here
 }
